@@ -193,6 +193,12 @@ def gen_plan(rng, tier, i):
             es["cospar_id"] = child.choice(["2020-001B", "1999-025DZ"])
         if child.random() < 0.4:
             spec["ephems"][0]["anonymous"] = True  # the first one carries no name at all
+    if "epoch" in spec and child.random() < 0.2:
+        # fractions of a second whose product by 1e6 falls just below a whole number in binary floating point
+        spec["epoch"][1] = float(int(spec["epoch"][1])) + child.choice([0.0157, 0.0314, 0.0628, 0.000249, 0.127069, 0.508265, 0.29, 0.57, 0.58])
+    if kind == "tdm" and len(spec.get("paths", [])) > 1 and child.random() < 0.5:
+        # each station dates its measures in its own time scale
+        spec["path_scales"] = [child.choice(["UTC", "TAI", "TT", "GPS"]) for _ in spec["paths"]]
     if kind == "opm":
         for m_ in spec.get("mans", []):
             if m_["type"] == "cont" and child.random() < 0.35:
@@ -305,8 +311,11 @@ def build(node, spec, ctx):
     ms_mod = node.mod("beyond.utils.measures")
     rs = np.random.RandomState(spec["seed"])
     mset = ms_mod.MeasureSet([])
-    date = world.mk_date(node, spec["epoch"], spec["scale"])
-    for path in spec["paths"]:
+    date0 = world.mk_date(node, spec["epoch"], spec["scale"])
+    for q_, path in enumerate(spec["paths"]):
+        date = date0
+        if spec.get("path_scales"):
+            date = world.mk_date(node, spec["epoch"], spec["path_scales"][q_])
         for i in range(spec["npts"]):
             d = date + td(seconds=i * spec["step_s"])
             for t in spec["types"]:
@@ -407,12 +416,13 @@ def describe(obj, kind):
 
 
 HOPS = [1]  # number of write/read cycles between the two descriptions being compared: "to the microsecond" holds per cycle
+EXACT_DATES = [False]  # UTC / TAI readings without IERS tables: TAI - UTC is 0, nothing is added to the reading, it comes back as written
 
 
 def cmp_date(a, b, where, diffs):
     if a["scale"] != b["scale"]:
         diffs.append((where + ".scale", f"{a['scale']} -> {b['scale']}"))
-    elif abs(date_diff(a, b)) > TOLERANCES["epoch_s"] * HOPS[0]:
+    elif abs(date_diff(a, b)) > (0.4e-6 if (EXACT_DATES[0] and a["scale"] in ("UTC", "TAI")) else TOLERANCES["epoch_s"] * HOPS[0]):
         diffs.append((where, f"clock reading moved by {date_diff(b, a):.6f} s"))
 
 
@@ -539,6 +549,7 @@ class World:
         self.plan, self.ctx = plan, ctx
         self.disk = SimDisk()
         self.real_eop = bool(plan["knobs"].get("real_eop"))
+        EXACT_DATES[0] = not self.real_eop
         if self.real_eop:
             load_real_eop(self.disk)
         self.n_nodes = 0
